@@ -1,4 +1,5 @@
 """C10 - non-blocking and timed receives never block, miss a message, or poison."""
+import chancheck
 import transcheck
 
 R, T, W = "recv", "try", "timeout"
@@ -21,8 +22,39 @@ def plans(tier):
     ]
 
 
+def polls(b):
+    return any(o["op"] in ("recv", "drain") and o.get("mode") in ("try", "timeout") for o in b["ops"])
+
+
+def chan_plans(tier):
+    # call-level behaviours of Channels.tla that contain a try_recv / try_recv_timeout: their results do not depend
+    # on which system calls the transport uses, so this stage keeps deciding when the system-call protocol changes
+    if tier == "quick":
+        return [
+            {"name": "calls-bfs-1agent", "variant": "os", "mode": "thread",
+             "gen": dict(agents=(0,), maxch=2, maxreg=0, maxslots=1, maxops=3), "filter": polls},
+            {"name": "calls-sim-2agents", "variant": "os", "mode": "process",
+             "gen": dict(agents=(0, 1), maxch=3, maxreg=0, maxslots=1, maxops=16, minops=8, maxqueue=3,
+                         kinds=("typed", "bytes"), simulate=30, depth=100, tlcseed=chancheck.seed()), "filter": polls},
+        ]
+    return [
+        {"name": "calls-bfs-1agent-d4", "variant": "os", "mode": "thread",
+         "gen": dict(agents=(0,), maxch=2, maxreg=0, maxslots=1, maxops=4), "filter": polls},
+        {"name": "calls-bfs-2agents-process-d4", "variant": "os", "mode": "process",
+         "gen": dict(agents=(0, 1), maxch=1, maxreg=0, maxslots=1, maxops=4), "filter": polls, "limit": 20000},
+        {"name": "calls-sim-inprocess", "variant": "inprocess", "mode": "thread",
+         "gen": dict(agents=(0, 1), maxch=4, maxreg=0, maxslots=2, maxops=40, minops=15, maxqueue=4,
+                     kinds=("typed", "bytes"), simulate=100, depth=200, tlcseed=chancheck.seed() + 1), "filter": polls},
+    ]
+
+
 def run(tier):
     res = transcheck.campaign("C10", plans(tier), "try_recv / try_recv_timeout / recv sequences")
+    r2 = chancheck.campaign("C10", chan_plans(tier), polls, "results of try_recv / try_recv_timeout at call granularity")
+    res["violations"] += r2["violations"]
+    for k in ("states", "transitions", "traces_validated_against_impl", "evaluations", "distinct_nontrivial"):
+        res["coverage"][k] = res["coverage"].get(k, 0) + r2["coverage"].get(k, 0)
+    res["coverage"]["samples"] += r2["coverage"]["samples"][:2]
     res["assumptions"] = ["timed receives: a poll that the model ends by readiness is given 8 s and must return early "
                           "(<6 s); one that the model lets expire is given 0, 0.3, 1, 2, 3 or 20 ms and must not report "
                           "'empty' before floor(d) ms (same-thread monotonic clock)",
@@ -32,4 +64,6 @@ def run(tier):
 
 
 def replay(rp):
+    if rp.get("kind") == "chan":
+        return chancheck.replay_one(rp)
     return transcheck.replay_one(rp)
